@@ -6,6 +6,8 @@ from decimal import Decimal
 from typing import TYPE_CHECKING
 from typing import Iterable
 
+from markupsafe import Markup
+
 from liquid2.builtin import LambdaExpression
 from liquid2.builtin import Path
 from liquid2.builtin import PositionalArgument
@@ -36,7 +38,8 @@ def _is_scalar(obj: object) -> bool:
     """
     if obj is None:
         return True
-    if isinstance(obj, (str, int, float, Decimal)) and not hasattr(obj, "__liquid__"):
+    # Exactly these types. A subclass might define equality without a matching hash.
+    if type(obj) in (str, Markup, int, float, bool, Decimal):
         try:
             return bool(obj == obj)  # noqa: PLR0124
         except ArithmeticError:
